@@ -23,7 +23,7 @@ const READ_REAL: &[&str] = &[
     "for files written by bigtools: the real write pipeline (calm schedule)",
 ];
 const READ_STUB: &[&str] = &[
-    "file being read: SimRead (Read+Seek+Reopen over shared bytes, seeded short reads and EINTR)",
+    "file being read: SimRead (Read+Seek+Reopen over shared bytes, seeded short reads and EINTR; in a quarter of the histories one hard read/seek error inside one operation, F10)",
     "C10 only: files come from the independent encoder (sim/src/encode.rs), not from bigtools",
 ];
 const COMMON_ASSUME: &[&str] = &[
@@ -41,7 +41,7 @@ pub fn spec(prop: &str) -> Spec {
                 rule: match prop {
                     "C05" => "stratified seeded search over tree shapes: run index mod 16 selects a target (levels 1-4 x last node full/partial/single, then free sampling of 1-700 blocks, fan-out 2-9, 1-3 chromosomes); every case = one written file + independent tree walk + boundary sweep; distinct = distinct hash of the case; non-trivial = at least 2 blocks. classes_reached lists the (levels, last-node fill per level) classes observed in the decoded trees".to_string(),
                     "C10" => "seeded encoder specifications (byte order x zlib/raw x version 1-4 x section types 1/2/3 x chromosome-tree fan-out x R-tree fan-out x node placement x zoom levels) with a seeded query history each; distinct = distinct hash of (specification, history, read-fault plan); non-trivial = at least 2 data blocks; classes_reached lists the layout classes".to_string(),
-                    _ => "seeded files (calm bigtools write) with a seeded history of 4-40 operations (interval, partial iteration, move+into, per-base values, zoom, reopen, summary) run through the plain and the caching reader on SimRead; distinct = distinct hash of (file, history, read-fault plan, reader flavour); non-trivial = at least 2 blocks and 2 operations".to_string(),
+                    _ => "seeded files (calm bigtools write) with a seeded history of 4-40 operations (interval, partial iteration, move+into, per-base values, zoom, reopen, summary) run through the plain and the caching reader on SimRead; an operation inside which the injected hard error fired may fail, none may answer wrongly, later ones must be right; distinct = distinct hash of (file, history, read-fault plan, reader flavour); non-trivial = at least 2 blocks and 2 operations".to_string(),
                 },
                 real: READ_REAL.to_vec(),
                 stub: READ_STUB.to_vec(),
